@@ -119,9 +119,32 @@ func fieldOwnerName(w *World, f *types.Var) string {
 	return ""
 }
 
-func memoKeyAtoms(idx ssa.Value) []string {
+func memoKeyAtoms(idx ssa.Value) []string { return memoKeyAtomsD(idx, 0) }
+
+func memoKeyAtomsD(idx ssa.Value, depth int) []string {
 	v := stripTrivial(idx)
 	if p, ok := v.(*ssa.Parameter); ok {
+		// the parameter of a split-off helper: what its callers pass
+		if w := curWorld; w != nil && depth < 4 && p.Parent() != nil && w.isNewFn(p.Parent()) {
+			pi := -1
+			for i, q := range p.Parent().Params {
+				if q == p {
+					pi = i
+				}
+			}
+			set := map[string]bool{}
+			sites := w.callSitesOfNew(p.Parent())
+			for _, cs := range sites {
+				if pi >= 0 && pi < len(cs.Common().Args) {
+					for _, a := range memoKeyAtomsD(cs.Common().Args[pi], depth+1) {
+						set[a] = true
+					}
+				}
+			}
+			if len(sites) > 0 && len(set) > 0 {
+				return keys(set)
+			}
+		}
 		return []string{"param:" + short(types.TypeString(p.Type(), nil))}
 	}
 	a := newAtoms()
